@@ -176,7 +176,7 @@ def check_case(alg, bsclass, max_reads):
                 ["exactly-one-response", "one-digest-per-block-of-the-range", "digest-covers-exactly-its-block-clipped-at-eof"]
                 + (["status-only-for-a-whole-range-block-under-256-bytes"] if bsclass == "whole-range" else []),
                 {"file size/start/length": "0..2^20", "block size": "0 or 256..2^20", "unrolling": "<=%d reads per request" % max_reads, "block size class": bsclass},
-                fresh_first=True, max_paths=50000, wall_s=400)
+                fresh_first=True, max_paths=50000, wall_s=400 if max_reads <= 3 else 1800)
 
 
 def _ite(c, a, b):
@@ -186,8 +186,8 @@ def _ite(c, a, b):
 
 
 def cases(tier):
-    k = 3 if tier == "quick" else 5
-    cs = [check_case("md5", c, k) for c in ("whole-range", "small-blocks", "large-blocks")]
-    if tier == "thorough":
-        cs.append(check_case("sha1", "small-blocks", 5))
-    return cs
+    if tier == "quick":
+        return [check_case("md5", c, 3) for c in ("whole-range", "small-blocks", "large-blocks")]
+    # thorough: deeper unrolling; the small-block class forks most (one digest per block) and gets one read less
+    return [check_case("md5", "whole-range", 5), check_case("md5", "small-blocks", 4), check_case("md5", "large-blocks", 5),
+            check_case("sha1", "small-blocks", 4)]
